@@ -61,9 +61,10 @@ PROPS = {
     },
     "C08": {
         "module": "Cdecao.Props.C08",
-        "extra_modules": ["Cdecao.Props.EngineTie"],
+        "extra_modules": ["Cdecao.Props.EngineTie", "Cdecao.Props.C08Assign"],
         "theorems": ["Props.C08_score", "Props.C08_score_valid", "Props.C08_max_ge", "Props.C08_quality_identity", "Props.C08_quality_lack",
-                     "Props.C08_combined", "Props.C08_quality_max", "Props.C08_quality_engine", "Props.C01_C08_cde"],
+                     "Props.C08_combined", "Props.C08_quality_max", "Props.C08_quality_engine", "Props.C01_C08_cde",
+                     "Props.C08_assignment_quality", "Props.C08_assignment_quality_shape", "Props.C08_assignment_quality_needs_nodup"],
         "streams": ["node", "node-rooms", "solve", "solve-rooms", "cli-simple", "e2e-cde", "node-exhaustive", "simple-read"],
     },
     "C09": {
